@@ -692,6 +692,7 @@ func (r *ringDescriber) getClusterPeerInfo(localHost *HostInfo) ([]*HostInfo, er
 func isValidPeer(host *HostInfo) bool {
 	return !(len(host.RPCAddress()) == 0 ||
 		host.hostId == "" ||
+		host.hostId == (UUID{}).String() || // a NULL host_id column decodes as the zero UUID
 		host.dataCenter == "" ||
 		host.rack == "" ||
 		len(host.tokens) == 0)
